@@ -277,11 +277,36 @@ def exact_events(ctx, ty, dtype, nprog, maxd):
         ev.append({"ty": ty, "prog": prog, "kinds": g.kinds, "vals": [[L.dy(v) for v in x] for x in g.vals],
                    "value": L.dyvec(y), "jac": [[L.dyvec(row) for row in j] for j in Js], "finite": fin,
                    "api": api, "depth": depth(prog), "zero_only": False})
-    # group-valued outputs (raw coordinates, every unit cotangent incl. the last coordinate): only the zero slot
-    for k in range(max(2, nprog // 4)):
-        g = Gen(rng, ty)
-        g.sorts = []
-        prog = {"op": "gtensor", "a": g.expr("G", rng.randint(1, maxd - 1))}
+    # group-valued outputs (raw coordinates, every unit cotangent incl. the last coordinate): only the zero slot.
+    # First every group-valued operator at the ROOT with input leaves as operands (the upstream cotangent then reaches the
+    # operator's own backward with a non-zero entry in the extra slot), then random programs.
+    def fixed_roots():
+        out = []
+        for shape in ("mul", "mul_chain", "inv", "retr", "mul_inv"):
+            g = Gen(rng, ty)
+            g.sorts = []
+            X, Y = g.inp("G"), None
+            if shape == "mul":
+                body = {"op": "mul", "a": X, "b": g.inp("G")}
+            elif shape == "mul_chain":
+                body = {"op": "mul", "a": {"op": "mul", "a": X, "b": g.inp("G")}, "b": g.inp("G")}
+            elif shape == "inv":
+                body = {"op": "inv", "a": X}
+            elif shape == "retr":
+                body = {"op": "retr", "a": X, "b": g.inp("At")}
+            else:
+                body = {"op": "mul", "a": X, "b": {"op": "inv", "a": g.inp("G")}}
+            out.append((g, {"op": "gtensor", "a": body}))
+        return out
+
+    rootprogs = fixed_roots()
+    for k in range(len(rootprogs) + max(2, nprog // 4)):
+        if k < len(rootprogs):
+            g, prog = rootprogs[k]
+        else:
+            g = Gen(rng, ty)
+            g.sorts = []
+            prog = {"op": "gtensor", "a": g.expr("G", rng.randint(1, maxd - 1))}
         if len(set(_inputs(prog))) != len(g.vals) or "G" not in g.kinds or prog["a"]["op"] == "in":
             continue      # (the raw coordinates of an input itself are plain tensor autograd, no Lie operator involved)
         api = ["grad", "backward", "functional", "jacrev"][k % 4]
